@@ -216,3 +216,36 @@ class _TimeFromBytes:
 
     def exceptional(self, data, exc):
         return is_instance_of(exc, DataTypeError) and len(data) != 4
+
+
+# ------------------------------------------------------------------ bounded companion (never counted as proved)
+from pyvc.api import table          # noqa: E402
+
+
+def _native_u32(word):
+    a = FeatureListAVP(vendor_id=VENDOR_ID_3GPP, feature_list_id=1) if False else FeatureListAVP.__new__(FeatureListAVP)
+    object.__setattr__(a, "_flags", b"\x80")
+    object.__setattr__(a, "_data", word.to_bytes(4, "big"))
+    object.__setattr__(a, "_vendor_id", VENDOR_ID_3GPP)
+    object.__setattr__(a, "_length", (16).to_bytes(3, "big"))
+    a.__dict__["code"] = FeatureListAVP.code
+    a.__dict__["vendor_id"] = VENDOR_ID_3GPP
+    return a
+
+
+@table("bit-accessors-small", prop="C20")
+def bit_accessors_small():
+    """the clauses of the three bit-accessor contracts evaluated natively on the real methods for a spread of
+    32-bit words (all single bits, their complements, corner words) x every index in -2..34"""
+    from pyvc.conform import conform
+    words = [0, 1, 2 ** 31, 2 ** 32 - 1, 0x00ff00ff, 0x12345678, 0x80000001, 0x7fffffff] \
+        + [1 << i for i in range(32)] + [(2 ** 32 - 1) ^ (1 << i) for i in range(0, 32, 5)]
+    out = []
+    for f in ("is_bit_set", "set_bit", "unset_bit"):
+        chk, skip, fails = conform("C20/types.Unsigned32Type." + f,
+                                   ({"self": _native_u32(w), "bit": i} for w in words for i in range(-2, 35)))
+        out.append((f, not fails and chk > 0, {"checked": chk, "failing": fails}))
+    return out
+
+
+bit_accessors_small.bounded = "57 words x indices -2..34, native evaluation of the contract clauses"
